@@ -26,11 +26,11 @@ type vTrigCfg struct {
 
 // control histories leading to the settings (C02 quantifier)
 const (
-	vCtrlRestored     = iota // settings restored from the saved configuration by PrepareRun; nothing else configures
-	vCtrlBefore              // ChangeTriggerState before the first block
-	vCtrlAfterBlock1         // ChangeTriggerState after the first block
-	vCtrlLengthsSame         // configured before; ConfigurePulseLengths with unchanged lengths after the first block
-	vCtrlLengthsChange       // configured before; ConfigurePulseLengths with different lengths after the first block
+	vCtrlRestored      = iota // settings restored from the saved configuration by PrepareRun; nothing else configures
+	vCtrlBefore               // ChangeTriggerState before the first block
+	vCtrlAfterBlock1          // ChangeTriggerState after the first block
+	vCtrlLengthsSame          // configured before; ConfigurePulseLengths with unchanged lengths after the first block
+	vCtrlLengthsChange        // configured before; ConfigurePulseLengths with different lengths after the first block
 	vNCtrl
 )
 
